@@ -3,8 +3,8 @@ import json, os, sys, glob
 
 
 def first_key(entry):
-    for pid, c in entry['checks'].items():
-        if pid == entry['property'] and c.get('keys'):
+    for pid, c in entry.get('checks', {}).items():
+        if pid == entry.get('property') and c.get('keys'):
             return c['keys'][0].split('key=')[1].split(' (')[0]
     return None
 
